@@ -534,7 +534,7 @@ func oC05(ix *Index) []Violation {
 func oC06(ix *Index) []Violation {
 	var out []Violation
 	for _, w := range ix.ByOp["wuf"] {
-		if !w.Returned() || ix.modelState(w.Call) != "Running" {
+		if !w.Returned() || !ix.lifeSequentialBefore(w.Call) || ix.modelState(w.Call) != "Running" {
 			continue
 		}
 		stable := true
@@ -562,6 +562,17 @@ func oC06(ix *Index) []Violation {
 			if !b.Returned() || b.RetEv.E != "" {
 				continue
 			}
+			// a Resume or Restart issued by another caller while the barrier call is in progress may
+			// legitimately put jobs back in flight before it returns
+			revived := false
+			for _, c := range ix.Life {
+				if (c.Op == "resume" || c.Op == "restart") && c.Call < b.Ret && c.end(ix.N) > b.Call {
+					revived = true
+				}
+			}
+			if revived {
+				continue
+			}
 			for _, n := range ix.JobNums {
 				j := ix.Jobs[n]
 				for i, en := range j.Enters {
@@ -584,6 +595,25 @@ func oC06(ix *Index) []Violation {
 		}
 	}
 	return out
+}
+
+// lifeSequentialBefore: no two lifecycle calls begun before pos overlapped each other, so the
+// sequential state model is meaningful at pos.
+func (ix *Index) lifeSequentialBefore(pos int) bool {
+	for i, a := range ix.Life {
+		if a.Call >= pos {
+			break
+		}
+		for _, b := range ix.Life[i+1:] {
+			if b.Call >= pos {
+				break
+			}
+			if b.Call < a.end(ix.N) && a.C != b.C {
+				return false
+			}
+		}
+	}
+	return true
 }
 
 // ---------------------------------------------------------------- C07
